@@ -80,7 +80,9 @@ FullOffsets(c) == (0..(2 * Wide(c) - 1)) \cup { k * Wide(c) : k \in 2..9 } \cup 
 FullRequests(c) ==
   { r \in FullOffsets(c) \X (ShortLens \cup LongLens) \X {Log2(c[1])} \X {FIXED, INCR, WRAP} :
       /\ LegalBurst(r[1], r[2], r[3], r[4], c[1])
-      /\ r[2] \in LongLens => r[1] \in {0, c[1]} }
+      /\ r[2] \in LongLens => r[1] \in {0, c[1]}
+      (* multi-beat FIXED bursts (outside the claimed class of both converters): fewer start addresses *)
+      /\ (r[4] = FIXED /\ r[2] > 0) => (r[1] < Wide(c) \/ r[1] >= 4096 - Wide(c)) }
 NarrowRequests(c) ==
   { r \in (0..(Wide(c) - 1)) \X {0, 1, 3, 4} \X (0..(Log2(c[1]) - 1)) \X {FIXED, INCR, WRAP} :
       LegalBurst(r[1], r[2], r[3], r[4], c[1]) }
